@@ -13,7 +13,7 @@ from formak.exceptions import MinimizationFailure, ModelConstructionError
 from numpy.typing import NDArray
 from scipy.optimize import minimize
 from sklearn.base import BaseEstimator
-from sympy import Derivative, Dummy, Matrix, Symbol, cse, simplify
+from sympy import Derivative, Dummy, Matrix, Symbol, cse, simplify, zoo
 from sympy.utilities.lambdify import lambdify
 
 from formak import common
@@ -39,6 +39,20 @@ class Config:
     extra_validation: bool = False
     max_dt_sec: float = 0.1
     innovation_filtering: float | None = 5.0
+
+
+def _simplify(expr):
+    """
+    simplify(), unless it introduces a ComplexInfinity.
+
+    simplify() rewrites sign(x) next to a pole at x into a Piecewise whose
+    x == 0 branch is ComplexInfinity, which cannot be compiled; the
+    expression as given can.
+    """
+    simplified = simplify(expr)
+    if simplified.has(zoo) and not expr.has(zoo):
+        return expr
+    return simplified
 
 
 class BasicBlock:
@@ -78,7 +92,7 @@ class BasicBlock:
         for i in range(len(prefix)):
             expr = prefix[i][1]
             if self._config.common_subexpression_elimination:
-                expr = simplify(expr)
+                expr = _simplify(expr)
 
             self._prefix.append(
                 (
@@ -96,7 +110,7 @@ class BasicBlock:
             lambdify(
                 self._arglist + temporaries,
                 (
-                    simplify(expr)
+                    _simplify(expr)
                     if self._config.common_subexpression_elimination
                     else expr
                 ),
